@@ -10,6 +10,10 @@ PROPS = {
     "C01": {
         "harnesses": [
             {"pkg": "bt", "name": "VH_C01_VarInt"},
+            {"pkg": "bt", "name": "VH_C01_DecodeEncode", "quick": {"params": {"N": 16}}, "thorough": {"params": {"N": 24}}},
+            {"pkg": "bt", "name": "VH_C01_EncodeDecode", "quick": {"params": {"IO": 2, "S": 1}}, "thorough": {"params": {"IO": 2, "S": 2}}},
+            {"pkg": "bt", "name": "VH_C01_Boundary", "quick": {"params": {"BIG": 0}}, "thorough": {"params": {"BIG": 1}}},
+            {"pkg": "bt", "name": "VH_C01_CountBoundary"},
         ],
         "assumptions": [],
         "bounds": {"quick": "", "thorough": ""},
